@@ -401,7 +401,7 @@ template <class G> struct Harness {
     // runs one schedule; returns the recorded points
     std::vector<Point> run(int shape, const std::vector<int> &opIdx, const std::vector<int> &prefix, const std::vector<std::string> &baseline, const std::string &freshKey, bool freeRunning) {
         G shared = makeShape<G>(shape); // a FRESH object per execution: no thread has ever touched it
-        preparePartners(shared, (int)opIdx.size());
+        preparePartners(makeShape<G>(shape), (int)opIdx.size()); // from ANOTHER identically built object: no call, not even a const one, is made on `shared` before the threads start
         Exec<G> ex;
         ex.shared = &shared;
         ex.ops = &ops;
